@@ -343,6 +343,8 @@ def check_casts(prog, ctx):
             if isinstance(node, ast.Call) and isinstance(node.func, ast.Attribute) and node.func.attr == "astype":
                 kind = "astype"
             elif isinstance(node, ast.Call) and isinstance(node.func, ast.Name) and node.func.id in ("float", "complex", "int"):
+                if node.args and all(isinstance(a, ast.Constant) for a in node.args):
+                    continue  # a literal such as float("inf"): no data is converted
                 kind = node.func.id
             elif isinstance(node, ast.Attribute) and node.attr in ("real", "imag") and isinstance(node.ctx, ast.Load):
                 kind = node.attr
